@@ -23,7 +23,7 @@ LEVEL_TEXT = ('static table check of ~130 command constructions (name and arity)
 LEVEL_NOTE = 'command table (scverif/refs/server_cmds.json) is the external oracle'
 LEVEL_TEXT_ADD = ' Also: or-default rule over node/buffer/bus/server (ids and targets defaulted only when None), argument roles of the file commands, dict/sequence embed agreement, completion message evaluated before any state change in Buffer.free.'
 LEVEL_TEXT_ADD += ' Rounds e-f: bind/sync/split order, convenience constructors, mapn/setn/fill argument forms, refuses-freed census over Buffer, free_all marks objects freed, every hand-written /b_free releases the number, clumping (shared with C06).'
-LEVEL_TEXT_ADD += ' Rounds g-h: per-id loop of free_all, Buffer.setn spreads tuples like Node.setn.'
+LEVEL_TEXT_ADD += ' Rounds g-h: per-id loop of free_all, Buffer.setn spreads tuples like Node.setn. Round i: Node.free sends whenever it is asked to.'
 LEVEL_TEXT = (globals().get('LEVEL_TEXT') or EXPLANATION) + LEVEL_TEXT_ADD
 TECHNIQUE = 'static analysis: reference-table arity check of all command literals + path rules (guards, ordering) on id life cycles'
 
